@@ -300,7 +300,9 @@ func (g *gen) graph(n int) (deps [][]int, shape string) {
 		rng.Shuffle(len(out[i]), func(a, b int) { out[i][a], out[i][b] = out[i][b], out[i][a] })
 		if len(out[i]) > 0 && rng.Intn(40) == 0 {
 			out[i] = append(out[i], out[i][0]) // the same dependency named twice
-			shape += "+dup"
+			if !strings.HasSuffix(shape, "+dup") {
+				shape += "+dup"
+			}
 		}
 	}
 	return out, shape
@@ -373,6 +375,25 @@ func (g *gen) scenario() (*scenario, string) {
 	}
 	if nf == 0 {
 		g.r.Count("fail:none")
+	}
+	// A nil callback leaves no record. Whether the manager still launches a ready module after it has
+	// received an error report is a race the history cannot show for such a module, so scenarios that
+	// plan prep (start) failures use no nil prep (start) callbacks.
+	for key := range sc.Fail {
+		for k := 0; k < 2; k++ {
+			if strings.Contains(key, "."+kindLetter[k]+".") {
+				for i := 0; i < n; i++ {
+					sc.Nil[i][k] = false
+				}
+			}
+		}
+	}
+	for i := 0; i < n; i++ {
+		for k := 0; k < 3; k++ {
+			if sc.Nil[i][k] {
+				g.r.Count("nil-callback:" + kindName[k])
+			}
+		}
 	}
 	// special graphs
 	switch rng.Intn(40) {
@@ -488,7 +509,7 @@ func nontrivial(sc *scenario, hist []string) bool {
 
 func generate(r *hxlib.Run, emit func(hxlib.Case)) {
 	g := &gen{r: r, rng: r.Rng}
-	total := r.Budget(1500, 60000)
+	total := r.Budget(6000, 300000)
 	type item struct {
 		line, kind string
 		sc         *scenario
